@@ -504,7 +504,7 @@ def part_b(ctx, tab):
     ce = {c["name"]: c for c in tab["cenums"]}
     rm = {m["name"]: {l["name"]: l for l in m["leaves"]} for m in tab["rmaps"]}
     nsh = 16
-    ncases = 1200 if ctx.thorough() else 96
+    ncases = 800 if ctx.thorough() else 96
     maxops = 80 if ctx.thorough() else 40
     jobs = []
     for kind in ("pubsub", "event", "reqres"):
@@ -629,6 +629,7 @@ def run(ctx):
         })
         part_b(ctx, tab)
         ctx.log("part B done")
+        ctx.cov["samples"] = ctx.cov.get("part_b", {}).get("samples", [])
         pb = ctx.cov.get("part_b", {}).get("stats", {})
         ctx.cov["traces_validated_against_impl"] = pb.get("mode_runs", 0)
         ctx.cov["ops_executed"] = pb.get("ops", 0)
